@@ -290,7 +290,7 @@ def civil_from_secs(env, secs):
     return y, m, d, hour, minute, sec, wday, yday
 
 
-CAL_MAX_DAY = 67936  # 2155-12-31: last day whose year fits the one-byte "years since 1900" field
+CAL_MAX_DAY = 67934  # 2155-12-31: last day whose year fits the one-byte "years since 1900" field
 
 
 def abstract_calendar(ctx, days):
@@ -394,13 +394,17 @@ def digits(env, v, n):
 def t_strftime(it, fmt, ts):
     if fmt != '%Y%m%d%H%M%S' or not isinstance(ts, TimeStruct):
         raise Unsupported('strftime format %r' % (fmt,))
+    cache = it.ctx.ghost.setdefault('strftime_cache', {}) if it.ctx is not None else {}
+    if id(ts) in cache:
+        return cache[id(ts)][1]
     env = DivEnv(it.ctx)
     v = ts.vals
     items = (digits(env, v['tm_year'], 4) + digits(env, v['tm_mon'], 2) + digits(env, v['tm_mday'], 2) +
              digits(env, v['tm_hour'], 2) + digits(env, v['tm_min'], 2) + digits(env, v['tm_sec'], 2))
     if all(not is_sym(x) for x in items):
         return ''.join(chr(x) for x in items)
-    return SStr(items)
+    cache[id(ts)] = (ts, SStr(items))
+    return cache[id(ts)][1]
 
 
 def t_strptime(it, s, fmt):
